@@ -116,6 +116,17 @@ def isPlainIdent : List Char → Bool
       | d :: _ => (d = '+' || d = '-' || d = '.' || d = '@' || isInitial d) && cs.all isSubsequent
     else false
 
+/-- All R7RS identifiers written without bars: `isPlainIdent` plus the form
+`<sign> . <dot subsequent> <subsequent>*` (e.g. `+.a`), which Ruschm does not read — used only to
+state what is *not* supported (`C06.lex_one_ident_full_fails`). -/
+def isR7rsIdent (s : List Char) : Bool :=
+  isPlainIdent s ||
+    match s with
+    | c :: '.' :: d :: cs =>
+      (c = '+' || c = '-') && (d = '+' || d = '-' || d = '.' || d = '@' || isInitial d)
+        && cs.all isSubsequent
+    | _ => false
+
 /-- a decimal literal `sign? digits+ ('.' digits*)? ('e' sign? digits+)?` with a fraction or an
 exponent (otherwise it is an integer) -/
 structure RealLit where
@@ -238,6 +249,20 @@ def ValidGaps : List Token → List (List Char) → Prop
   | [], [a] => isTrail false a = true
   | t :: ts, a :: l =>
     isAtmos false a = true ∧ gapOK t (l.headD []) ts.head? = true ∧ ValidGaps ts l
+  | _, _ => False
+
+/-- the gap condition one would expect if `,` were an ordinary punctuation token (ending by
+itself, whatever follows) — used only to state what is *not* true (`C06.lex_render_full_fails`) -/
+def gapOKNaive (t : Token) (sep : List Char) (next : Option Token) : Bool :=
+  !sep.isEmpty || closedTok t || selfDelimiting t ||
+    match next with
+    | none => true
+    | some t2 => startsDelim (renderTok t2) || (sharpTok t && startsSharp (renderTok t2))
+
+def ValidGapsNaive : List Token → List (List Char) → Prop
+  | [], [a] => isTrail false a = true
+  | t :: ts, a :: l =>
+    isAtmos false a = true ∧ gapOKNaive t (l.headD []) ts.head? = true ∧ ValidGapsNaive ts l
   | _, _ => False
 
 /-! ## Brackets -/
